@@ -110,6 +110,14 @@ func CallTree(fan, depth int) [][]byte {
 	return subrs
 }
 
+// CutFont generates a font of the "cut-charstrings" kind of Font: glyphs with
+// complete features next to glyphs holding half of one (see cutFont).
+func CutFont(t *rapid.T) *t1ref.RawFont {
+	f := &t1ref.RawFont{Container: rapid.IntRange(0, 3).Draw(t, "container"), LenIVActual: 4}
+	cutFont(t, f)
+	return f
+}
+
 func Font(t *rapid.T) (*t1ref.RawFont, string) {
 	f := &t1ref.RawFont{Container: rapid.IntRange(0, 3).Draw(t, "container"), LenIVActual: 4}
 	hsbw := []byte{139, 139, 13}
